@@ -6,7 +6,8 @@
    goroutines, the caller's Close on the returned reader; the unbuffered result channel, the
    done channel, the caller's context, one derived context and one reader per member.
    [step] contains every internal step (every ready case of every select) and every
-   environment move (start, a member's gate opens with success or failure, cancel, Close);
+   environment move (start, a member's gate opens with success or failure, cancel, use of the
+   returned reader, Close);
    [reach] is reachability from any of the 18 configurations (2 wrapper styles x 3 x 3 member
    kinds: answers when let, or only once its context is done - with success or failure).
    The bound of the statements is the model itself: they hold of EVERY reachable state, i.e.
@@ -108,6 +109,20 @@ Theorem C16_chosen_ctx_resolve : forall s j, reach s -> st s = Resolve -> res s 
   own (sd j s) = match main s with M_returned => true | _ => false end.
 Proof. exact chosen_ctx_resolve. Qed.
 Print Assumptions C16_chosen_ctx_resolve.
+
+(* ... and nothing the caller does with the returned reader short of closing it is a step of
+   the protocol: Read (delivering bytes, io.EOF or an error) and Descriptor are possible from the
+   return until Close and leave every context, reader and goroutine as they were - so
+   C16_chosen_ctx_live and C16_chosen_reader cover a reader that has been read to the end (or
+   whose Read failed) but has not been closed. *)
+Theorem C16_use_is_neutral : forall s u s', estep (EUse u) s = Some s' -> s' = s.
+Proof. exact use_neutral. Qed.
+Print Assumptions C16_use_is_neutral.
+
+Theorem C16_use_enabled : forall s u, main s = M_returned -> st s = Blob ->
+  (exists j, res s = ROk j) -> cl s = Cl_none -> estep (EUse u) s = Some s.
+Proof. exact use_enabled. Qed.
+Print Assumptions C16_use_enabled.
 
 (* Clause 4. No goroutine remains blocked once both members have returned: at every quiet
    moment after both answers the call has returned, both senders have exited and no Close is
